@@ -82,6 +82,55 @@ def cases(rng, which, count):
                 if rng.random() < 0.4:
                     fl.append(rng.choice(["-r", "--reverse"]))
                 yield Case("cli_lib", [st, "subseq"] + fl, True, "cli-subseq-general")
+            elif w == "split":
+                # `split --partition`: a partition file (RAxML style) covering the sites with 1-4 partitions given as
+                # runs, single sites and strided ranges; sometimes a site is left out, given twice or beyond the end
+                k = rng.choice([1, 2, 2, 2, 3, 3, 4])
+                pnames = rng.sample(["p1", "p2", "geneA", "x_2", "cds", "third", "P.b"], k)
+                items = []        # (partition, interval text)
+                if rng.random() < 0.3 and L >= 3:
+                    k = 3
+                    pnames = rng.sample(["pos1", "pos2", "pos3", "c1", "c2", "c3"], 3)
+                    items = [(pnames[i], "%d-%d/3" % (i + 1, L)) for i in range(3)]
+                else:
+                    j = 0
+                    while j < L:
+                        e = min(L, j + rng.randint(1, max(1, L // 3)))
+                        pn = pnames[len(items)] if len(items) < k else rng.choice(pnames)
+                        if e - j == 1:
+                            items.append((pn, str(j + 1)))
+                        elif e - j >= 4 and rng.random() < 0.3:
+                            other = rng.choice(pnames)
+                            items.append((pn, "%d-%d/2" % (j + 1, e)))
+                            items.append((other, "%d-%d/2" % (j + 2, e)))
+                        else:
+                            items.append((pn, "%d-%d" % (j + 1, e)))
+                        j = e
+                q = rng.random()
+                if q < 0.1 and len(items) > 1:
+                    items.pop(rng.randrange(len(items)))                       # a site in no partition
+                elif q < 0.2:
+                    items.append((rng.choice(pnames), rng.choice(items)[1]))   # a site in two partitions
+                elif q < 0.25:
+                    items.append((rng.choice(pnames), "%d-%d" % (L, L + 1)))    # beyond the alignment
+                if rng.random() < 0.5:
+                    rng.shuffle(items)
+                lines = []      # one line per partition, or one per interval
+                if rng.random() < 0.7:
+                    seen = []
+                    for pn, _ in items:
+                        if pn not in seen:
+                            seen.append(pn)
+                    for pn in seen:
+                        lines.append((pn, [t for q2, t in items if q2 == pn]))
+                else:
+                    lines = [(pn, [t]) for pn, t in items]
+                sp = rng.choice(["", " "])
+                txt = "".join("%s,%s%s%s=%s%s|" % (rng.choice(["DNA", "GTR", "M1"]), sp, pn, sp, sp, ("," + sp).join(ts)) for pn, ts in lines)
+                fl = ["--partition", "part.txt"]
+                if rng.random() < 0.6:
+                    fl = rng.choice([fl + ["-o", rng.choice(["out_", "x."])], ["-o", "o"] + fl])
+                yield Case("cli_libf", [st, "part.txt=" + txt, "split"] + fl, True, "cli-split")
             elif w == "consensus":
                 fl = [f for f in ("--ignore-gaps", "--ignore-n") if rng.random() < 0.4]
                 yield Case("cli_lib", [st, "consensus"] + fl, True, "cli-consensus")
@@ -131,6 +180,23 @@ def cases(rng, which, count):
                 cols = [rng.choice(["A" * n, "C" * n, "".join(rng.choice("ACGT-") for _ in range(n))]) for _ in range(L)]
                 cr = [("s%d" % i, "".join(c[i] for c in cols)) for i in range(n)]
                 yield Case("cli_lib", [esc(fasta(cr)), "compress"], True, "cli-compress")
+            elif w == "dedup-files":
+                # the files next to the alignment: groups of identical rows (`dedup -l`), pattern weights (`compress --weight-out`)
+                rr = rows + [("d%d" % i, rng.choice(rows)[1]) for i in range(rng.randint(0, 4))]
+                if rng.random() < 0.5:
+                    k = rng.randrange(len(rr))
+                    rr.append(("g", rr[k][1].replace("N", "-")))
+                rng.shuffle(rr)
+                nag = ["--n-as-gap"] if rng.random() < 0.5 else []
+                if rng.random() < 0.5:
+                    argv = ["dedup", "-l", "log.txt"] + nag
+                else:
+                    argv = ["dedup"] + nag + ["-l", "log.txt"]
+                yield Case("cli_libf", [esc(fasta(rr)), "_"] + argv, True, "cli-dedup-log")
+                cols = [rng.choice(["A" * n, "C" * n, "".join(rng.choice("ACGT-") for _ in range(n))]) for _ in range(L)]
+                cols += [rng.choice(cols) for _ in range(rng.randint(0, 6))]
+                cr = [("s%d" % i, "".join(c[i] for c in cols)) for i in range(n)]
+                yield Case("cli_libf", [esc(fasta(cr)), "_", "compress", "--weight-out", "w.txt"], True, "cli-compress-weights")
             elif w == "sort":
                 rr = list(rows)
                 rng.shuffle(rr)
@@ -143,6 +209,33 @@ def cases(rng, which, count):
                     fl += ["--genetic-code", rng.choice(["standard", "mitov", "mitoi"])]
                 nt = [(nm, "".join(rng.choice("ACGTacgtN-") for _ in range(L))) for nm, _ in rows]
                 yield Case("cli_lib", [esc(fasta(nt)), "translate"] + fl, True, "cli-translate")
+            elif w == "codonalign":
+                # protein rows that the reader cannot take for nucleotides (E, F, I, L, P, Q are not IUPAC codes),
+                # and for each one its coding sequence: complete, with 1-2 more nucleotides, too short, too long, absent
+                aa = "ARNDCQEGHILKMFPSTWYV"
+                pr = []
+                for nm, _ in rows:
+                    sq = [rng.choice(aa + "---") for _ in range(L)]
+                    sq[rng.randrange(L)] = rng.choice("EFILPQ")
+                    pr.append((nm, "".join(sq)))
+                k = rng.random()
+                nts = []
+                for nm, sq in pr:
+                    need = 3 * sum(1 for c in sq if c != "-")
+                    extra = rng.choice([0, 0, 1, 2])
+                    if k < 0.1:
+                        extra = rng.choice([-3, -1, 3, 4])
+                    nts.append((nm, "".join(rng.choice("ACGTacgtN") for _ in range(max(0, need + extra)))))
+                if 0.1 <= k < 0.2 and len(nts) > 1:
+                    nts.pop(rng.randrange(len(nts)))
+                elif 0.2 <= k < 0.25:
+                    nts[0] = (nts[0][0], "".join(rng.choice("EFILPQ") for _ in nts[0][1]) or "E")    # not nucleotides
+                elif 0.25 <= k < 0.3:
+                    pr = [(nm, "".join(rng.choice("ACGT-") for _ in sq)) for nm, sq in pr]               # not a protein alignment
+                nts.append(("other", "ACGTAC"))
+                rng.shuffle(nts)
+                nts = [(nm, sq) for nm, sq in nts if sq]
+                yield Case("cli_libf", [esc(fasta(pr)), "nt.fa=" + esc(fasta(nts)), "codonalign", "-f", "nt.fa"], True, "cli-codonalign")
             elif w == "trim":
                 yield Case("cli_lib", [st, "trim", "seq", "-n", str(rng.choice([-1, 0, 1, 2, L - 1, L, L + 1]))] + (["-s"] if rng.random() < 0.5 else []), True, "cli-trim-seq")
                 if rng.random() < 0.3:
@@ -209,6 +302,32 @@ def cases(rng, which, count):
                 sg = esc(fasta(gr))
                 for f in ("--from-start", "--from-end", "--openning", "--unique"):
                     yield Case("cli_lib", [sg, "stats", "gaps", f], True, "cli-stats-gaps" + f)
+            elif w == "charstats":
+                # `stats char`: the table of all characters, per sequence, per site; `--only` one character
+                pool = rng.choice(["ACGT", "ACGTacgt-", "ACGTNn-", "AC-", "ACGTRYKM*.?", "ARNDCQEGHILKMFPSTWYV-", "ARNDarndXx*"])
+                cr = [(nm, "".join(rng.choice(pool) for _ in range(L))) for nm, _ in rows]
+                sc = esc(fasta(cr))
+                present = sorted(set("".join(sq for _, sq in cr)))
+                for mode in ([], ["--per-sequences"], ["--per-sites"], ["--per-sites", "--per-sequences"]):
+                    fl = list(mode)
+                    k = rng.random()
+                    if k < 0.4:
+                        fl += ["--only", rng.choice(present)]
+                    elif k < 0.6 and "--per-sites" not in mode:
+                        # a character that does not occur (as it is written): a line / column of zeros.  Not with
+                        # --per-sites: the binary prints `site000|100|…` there (no header line, no separator)
+                        fl += ["--only", rng.choice([c for c in "ACGTNXacgtnx-*Z" if c not in present])]
+                    elif k < 0.65:
+                        fl += ["--only", "*"]
+                    yield Case("cli_lib", [sc, "stats", "char"] + fl, True, "cli-stats-char" + "".join(mode))
+            elif w == "alleles":
+                cols = ["".join(rng.choice(c) for _ in range(n)) for c in (rng.choice(["A", "AC", "ACGT-", "-", "*", "AC-", "N.", "ac", "-.*", "ACGTacgtRY"]) for _ in range(L))]
+                er = [("s%d" % i, "".join(c[i] for c in cols)) for i in range(n)]
+                yield Case("cli_lib", [esc(fasta(er)), "stats", "alleles"], True, "cli-stats-alleles")
+            elif w == "alphabet":
+                pool = rng.choice(["ACGT-", "ACGTacgtNRYKMSWBDHV-", "ARNDCQEGHILKMFPSTWYV-", "arndcqeghilkmfpstwyvX*-", "ACGT1", "ARNDJ-", "ACGU", "EFILPQ", "-", "ACGTO", "N-", "X-", "ACGTE"])
+                ar = [(nm, "".join(rng.choice(pool) for _ in range(L))) for nm, _ in rows]
+                yield Case("cli_lib", [esc(fasta(ar)), "stats", "alphabet"], True, "cli-stats-alphabet")
             elif w == "mutstats":
                 base = "".join(rng.choice("ACGT") for _ in range(L))
                 mr = [(nm, "".join(rng.choice("ACGTNRY-") if rng.random() < 0.25 else b for b in base)) for nm, _ in rows]
@@ -232,6 +351,34 @@ def cases(rng, which, count):
                 if ch not in ("GAP", "MAJ") and rng.random() < 0.3:
                     fl.append("--reverse")
                 yield Case("cli_lib", [st, "clean", "sites", "-c", cut] + fl, True, "cli-clean-sites")
+            elif w == "clean-files":
+                # the position files of `clean sites`: remaining sites, removed sites, or both
+                cut = rng.choice(["0", "0.25", "0.5", "0.75", "1", "0.1", "0.3"])
+                fl = []
+                ch = rng.choice(["GAP", "GAP", "-", "N", "A", "MAJ", "-N", "AC", "Nn"])
+                if ch != "GAP":
+                    fl += ["--char", ch]
+                if rng.random() < 0.3:
+                    fl.append("--ends")
+                if rng.random() < (0.3 if ch != "GAP" and "-" not in ch else 0.05):
+                    fl.append("--ignore-gaps")         # refused together with gaps among the characters
+                if rng.random() < (0.3 if "N" not in ch and "n" not in ch else 0.05):
+                    fl.append("--ignore-n")
+                if ch not in ("GAP", "MAJ", "-") and rng.random() < 0.3:
+                    fl.append("--ignore-case")
+                if ch not in ("GAP", "MAJ", "-") and rng.random() < 0.3:
+                    fl.append("--reverse")
+                k = rng.random()
+                if k < 0.5:
+                    fl += ["--positions", "kept.txt", "--positions-rm", "rm.txt"]
+                elif k < 0.7:
+                    fl += ["--positions-rm", "a.txt", "--positions", "b.txt"]
+                elif k < 0.85:
+                    fl += ["--positions", "kept.txt"]
+                else:
+                    fl += ["--positions-rm", "rm.txt"]
+                gr = [(nm, "".join(rng.choice(SYM + "-" * rng.choice([0, 6])) for _ in range(L))) for nm, _ in rows]
+                yield Case("cli_libf", [esc(fasta(gr)), "_", "clean", "sites", "-c", cut] + fl, True, "cli-clean-sites-positions")
 
 
 def shrink(c):
